@@ -43,8 +43,10 @@ def r3_1(ctx):
             if isinstance(e, Mut) and e.attr in ("allocated_worker_list", "allocated_facility_list", "assigned_task_list") and e.op not in ("append",):
                 ctx.violation(con + ":other-mutation", e.loc, f"allocation block mutates {e.attr} by `{e.op}`")
     # no other simulation-reachable code grows these lists
+    from ..alloc import alloc_region
+    inside = {id(g.node) for g in alloc_region(ctx)}   # the allocator and the private helpers it is split into
     for g in sim_reach(ctx, precise=not ctx.thorough):
-        if g is f:
+        if g is f or id(g.node) in inside:
             continue
         for ef_ in ctx.eff.of(g):
             if ef_.kind == "mut" and ef_.op in ("append", "extend", "insert") and ef_.attr in ("allocated_worker_list", "allocated_facility_list", "assigned_task_list"):
@@ -61,34 +63,28 @@ def r3_2(ctx):
             continue
         W = ew.args[0]
         con = construct(f, "site-" + ("facility" if s.facility is not None else "worker-only"))
-        wname, cand = s.worker_name, s.cand_name
         if s.worker_loop is None and s.pick is None:
             ctx.instance(f"{con}#{i}")
             ctx.violation(con + ":candidate-source", ew.loc, "the allocated worker is neither the variable of a candidate loop nor an element picked from a candidate list: cannot tell where it comes from")
             continue
         idx = s.trace.index(ew)
+        # a collection bound after the append whose elements are known to differ from the allocated worker (by ID or identity)
         narrowed = []
+        wtag = "<" + W.name + ">" if isinstance(W, Obj) else None
         for e in s.trace[idx:]:
-            if isinstance(e, LocalSet) and isinstance(e.value, CollV):
-                for pn, body in e.value.preds:
-                    names = {n.id for n in ast.walk(body) if isinstance(n, ast.Name)}
-                    if wname in names and any(isinstance(c, ast.Compare) and isinstance(c.ops[0], (ast.NotEq, ast.IsNot)) for c in ast.walk(body)):
-                        narrowed.append(e.name)
-        ctx.instance(f"{con}#{i}", sample={"narrowed": narrowed})
+            if isinstance(e, LocalSet) and isinstance(e.value, CollV) and wtag:
+                if any(wtag in cp and (" NotEq " in cp or " IsNot " in cp or "!=" in cp or " is not " in cp) for cp in e.value.cpreds):
+                    narrowed.append(e)
+        ctx.instance(f"{con}#{i}", sample={"narrowed": [e.name for e in narrowed]})
         if not narrowed:
             ctx.violation(con + ":free-list-not-narrowed", ew.loc, "after allocating a worker the shared collection of free workers is not rebuilt without that worker: a later task can take the same worker in this step")
             continue
-        # the narrowed name must be what candidate lists are (re)built from
-        src_ok = False
-        for n in ast.walk(f.node):
-            if isinstance(n, ast.Assign) and isinstance(n.targets[0], ast.Name) and n.targets[0].id != narrowed[0]:
-                if Interp._source_name(n.value) == narrowed[0] or any(isinstance(c, ast.Name) and c.id == narrowed[0] for c in ast.walk(n.value)):
-                    if cand is not None and cand == n.targets[0].id:
-                        src_ok = True
-        if cand is not None and cand == narrowed[0]:
-            src_ok = True
-        if not src_ok:
-            ctx.violation(con + ":narrowed-wrong-collection", ew.loc, f"the collection narrowed after allocation (`{narrowed[0]}`) is not the one the worker candidates are drawn from")
+        # the narrowed collection must be the one the worker candidates are drawn from (same origin)
+        cand = s.cand_coll
+        cbase = cand.base if isinstance(cand, CollV) else (cand.tag if isinstance(cand, Unk) else None)
+        if not any(e.value.base == cbase for e in narrowed):
+            ctx.violation(con + ":narrowed-wrong-collection", ew.loc, f"the collection narrowed after allocation (`{narrowed[0].name}`, drawn from `{narrowed[0].value.base}`) is not the one the worker candidates "
+                          f"are drawn from (`{cbase}`)")
         st = ew.heap.get((W.name, "state")) if isinstance(W, Obj) else None
         if not (isinstance(st, EnumSet) and st.members <= {"FREE"}):
             ctx.violation(con + ":worker-not-free", ew.loc, "allocated worker is not known to be FREE")
